@@ -185,6 +185,26 @@ def run(ctx, chk):
                 return acc & local
         return {p[0] for p in IF.possible(f, block, item_path)}
 
+    def see_through_accessors(f, root, steps):
+        """rewrite an access path rooted at the result of a unit-internal accessor (a static function all of whose
+        returns are one access path from a parameter, e.g. `(T*)item->data`) into the path from the caller's argument"""
+        for _ in range(3):
+            if root[0] != "inst":
+                break
+            c = f.insts[root[1]]
+            h = prog.funcs.get(c.callee) if c.op == "call" and c.callee else None
+            if h is None or not h.internal:
+                break
+            rets = {apath(i.operands[0]) for i in h.all_insts() if i.op == "ret" and i.operands}
+            if len(rets) != 1:
+                break
+            (hroot, hsteps), = rets
+            if hroot[0] != "arg" or hroot[1] >= len(c.operands):
+                break
+            aroot, asteps = apath(c.operands[hroot[1]])
+            root, steps = aroot, tuple(asteps) + tuple(hsteps) + tuple(steps)
+        return root, steps
+
     def classify(f, v, depth=0):
         """returns (ok, why)"""
         v0 = strip_casts(v)
@@ -215,7 +235,7 @@ def run(ctx, chk):
                     return False, "via call at %s: %s" % (c.loc(), why)
             return True, "parameter of internal helper; all %d call sites pass an owned block" % len(sites)
         if isinstance(v0, Inst) and v0.op == "load":
-            root, steps = apath(v0.operands[0])
+            root, steps = see_through_accessors(f, *apath(v0.operands[0]))
             # the item itself, loaded from *item_ref in the release routine
             if f.name == "cbor_decref" and root == ("arg", 0) and steps == ():
                 return True, "the item block, in the release routine"
